@@ -33,6 +33,79 @@ struct Font {
     file: tfm::File,
     prog: tfm::ligkern::CompiledProgram,
     loops: usize,
+    /// The lig/kern program in C05's encoding (kerns scaled by the real `to_scaled`); `None` if
+    /// `to_scaled` panics (C17's subject).
+    enc: Option<String>,
+}
+
+const FORMS: [tfm::ligkern::lang::PostLigOperation; 8] = {
+    use tfm::ligkern::lang::PostLigOperation::*;
+    [
+        RetainBothMoveNowhere,
+        RetainBothMoveToInserted,
+        RetainBothMoveToRight,
+        RetainRightMoveToInserted,
+        RetainRightMoveToRight,
+        RetainLeftMoveNowhere,
+        RetainLeftMoveToInserted,
+        RetainNeitherMoveToInserted,
+    ]
+};
+
+/// `rb lb nE (c e)* nK k* nI (next right kind x y)*` — the encoding of `Driver/C05.lean`: the
+/// program exactly as `compile_from_tfm_file` hands it to `compile` (after `pack_entrypoints` /
+/// `unpack_entrypoint`), kern payloads scaled with the real `FixWord::to_scaled`.
+fn enc_program(file: &mut tfm::File) -> Option<String> {
+    use tfm::ligkern::lang::Operation;
+    let ds = file.header.design_size;
+    let mut entries: Vec<(i64, i64)> = file
+        .lig_kern_entrypoints()
+        .into_iter()
+        .filter_map(|(c, e)| file.lig_kern_program.unpack_entrypoint(e).ok().map(|e| (c.0 as i64, e as i64)))
+        .collect();
+    entries.sort();
+    let p = &file.lig_kern_program;
+    let kerns = file.kerns.clone();
+    caught(|| {
+        let mut v: Vec<i64> = vec![
+            p.right_boundary_char.map(|c| c.0 as i64).unwrap_or(-1),
+            p.left_boundary_char_entrypoint.map(|e| e as i64).unwrap_or(-1),
+            entries.len() as i64,
+        ];
+        for (c, e) in &entries {
+            v.extend([*c, *e]);
+        }
+        v.push(kerns.len() as i64);
+        v.extend(kerns.iter().map(|k| k.to_scaled(ds).0 as i64));
+        v.push(p.instructions.len() as i64);
+        for i in &p.instructions {
+            let nx = i.next_instruction.map(|n| n as i64).unwrap_or(-1);
+            let r = i.right_char.0 as i64;
+            v.extend(match i.operation {
+                Operation::Kern(k) => [nx, r, 0, k.to_scaled(ds).0 as i64, 0],
+                Operation::KernAtIndex(x) => [nx, r, 1, x as i64, 0],
+                Operation::Ligature { char_to_insert, post_lig_operation, .. } => {
+                    [nx, r, 2, char_to_insert.0 as i64, FORMS.iter().position(|f| *f == post_lig_operation).unwrap() as i64]
+                }
+                Operation::EntrypointRedirect(u, b) => [nx, r, 3, u as i64, b as i64],
+            });
+        }
+        join(&v)
+    })
+    .ok()
+}
+
+fn enc_run_item(it: &tfm::ligkern::RunItem, sep: bool, o: &mut Vec<i64>) {
+    use tfm::ligkern::RunItem::*;
+    match it {
+        Char(c) => o.extend([0, *c as i64, sep as i64]),
+        Kern(k) => o.extend([1, k.0 as i64, sep as i64]),
+        Ligature(l) => {
+            o.extend([2, l.c as i64, l.includes_left_boundary as i64, l.includes_right_boundary as i64, l.original.chars().count() as i64]);
+            o.extend(l.original.chars().map(|c| c as i64));
+            o.push(sep as i64);
+        }
+    }
 }
 
 struct C14 {
@@ -101,7 +174,8 @@ impl C14 {
                 file.replace_lig_kern_program(p, e);
             }
             let (prog, errs) = tfm::ligkern::CompiledProgram::compile_from_tfm_file(&mut file);
-            Some(Rc::new(Font { file, prog, loops: errs.len() }))
+            let enc = enc_program(&mut file);
+            Some(Rc::new(Font { file, prog, loops: errs.len(), enc }))
         })();
         if self.fonts.len() > 20_000 {
             self.fonts.clear();
@@ -917,6 +991,76 @@ impl Property for C14 {
                 "positions skipped during synchronisation",
                 format!("allowed positions {} lie inside the span replaced by another discretionary and get none\n{}", f("missC"), detail()),
             );
+        }
+        // M for the reconstitution: C14.hyphenateM over C05's model of the font's program
+        match &font.enc {
+            None => out.tag("recon-model:skipped(to_scaled panics)"),
+            Some(pe) => {
+                let reply = drv.ask(&format!("rm {} {} {} {} {} {}", c.lhm, c.rhm, pe, join(&enc_in), join(&enc_out), join(&raws)));
+                if reply.starts_with("bad") {
+                    panic!("driver: {reply} on rm");
+                }
+                let parts: Vec<&str> = reply.split(" | ").collect();
+                out.tag("recon-model:compared");
+                match parts[0].trim() {
+                    "1" => {}
+                    "P" => out.fail(Kind::ImplVsModel, "recon", "reconstitution model panics or hangs", detail()),
+                    _ => out.fail(
+                        Kind::ImplVsModel,
+                        "recon",
+                        "reconstitution model differs from the real output",
+                        format!("{}\nmodel:  {}", detail(), parts.get(2).unwrap_or(&"")),
+                    ),
+                }
+                // the engine itself: items and separation points of every main run vs the real RunIter
+                for run in parts.get(1).unwrap_or(&"").split(';').filter(|r| !r.trim().is_empty()) {
+                    let v = parse_i64s(run);
+                    let (dlb, rbo) = (v[0] != 0, if v[1] < 0 { None } else { char::from_u32(v[1] as u32) });
+                    // the word is spelled by the originals of the model's items
+                    let mut word = String::new();
+                    let mut k = 3;
+                    while k < v.len() {
+                        match v[k] {
+                            0 => {
+                                word.push(char::from_u32(v[k + 1] as u32).unwrap());
+                                k += 3;
+                            }
+                            1 => k += 3,
+                            _ => {
+                                let n = v[k + 4] as usize;
+                                for j in 0..n {
+                                    word.push(char::from_u32(v[k + 5 + j] as u32).unwrap());
+                                }
+                                k += 6 + n;
+                            }
+                        }
+                    }
+                    let mut real: Vec<i64> = vec![];
+                    let mut count = 0i64;
+                    let mut it = font.prog.run_with_options(
+                        word.chars(),
+                        tfm::ligkern::RunOptions { disable_left_boundary: dlb, right_boundary_override: rbo },
+                    );
+                    let first_sep = it.is_separation_point();
+                    while let Some(item) = it.next() {
+                        let sep = it.is_separation_point();
+                        enc_run_item(&item, sep, &mut real);
+                        count += 1;
+                        if count > 10_000 {
+                            break;
+                        }
+                    }
+                    out.tag("engine-run:compared");
+                    if !first_sep || real != v[3..] || count != v[2] {
+                        out.fail(
+                            Kind::ImplVsModel,
+                            "engine",
+                            "engine model (items / separation points) differs from RunIter",
+                            format!("word {word} dlb={dlb} rbo={rbo:?}\nmodel: {}\nreal:  {} (separation point before the first item: {first_sep})", join(&v[3..]), join(&real)),
+                        );
+                    }
+                }
+            }
         }
         if std::env::var("VERIF_C14_DUMP").is_ok() && !out.failures.is_empty() {
             eprintln!("{}\t{}", case, out.failures.iter().map(|f| f.signature.clone()).collect::<Vec<_>>().join("|"));
